@@ -98,10 +98,32 @@ class PYGMain(PYGBase):
 """
 
 
+# text metadata members as LINES; gamma joins them by the line-end class of the member (Zip!LineEndClasses)
+TEXT_LINES = {
+    "abstract": [b"Abstract text for a caf\xe9 (not UTF-8)", b"second line ", b"third line"],
+    "links": [b"Name=Linked a", b"Path=./a", b"Type=0", b"Abstract=from the link file", b"", b"Name=Far away", b"Path=/far",
+              b"Host=example.org", b"Port=70", b"Type=1"],
+    "cap": [b"Name=Cap name for a", b"Numb=3", b"Abstract=said the cap file"],
+    "gophermap": [b"iInfo line", b"0A file\ta", b"1A directory\td", b"0Gone\tnope", b"1Elsewhere\t/else\texample.org\t70"],
+}
+INNER_SEPS = [b"\x0c", b"\x0b", b"\xc2\x85", b"\xe2\x80\xa8"]
+
+
+def text_content(tag, md):
+    lines = TEXT_LINES[tag]
+    if md == "le_seps":          # a separator-like character inside every line that has a blank to put it at
+        lines = [ln.replace(b" ", b" " + INNER_SEPS[i % len(INNER_SEPS)], 1) for i, ln in enumerate(lines)]
+    ends = {"le_crlf": [b"\r\n"], "le_cr": [b"\r"], "le_mixed": [b"\n", b"\r\n", b"\r"]}.get(md, [b"\n"])
+    out = b"".join(ln + ends[i % len(ends)] for i, ln in enumerate(lines))
+    return out[:-1] if md == "le_nofinal" else out
+
+
 def content_of(member, decoy=False):
     tag = member["tag"]
     if member.get("md") == "empty":
         return b""
+    if tag in TEXT_LINES:
+        return text_content(tag, member.get("md", "std"))
     mark = CANARY if decoy else b"member"
     if tag == "exec":
         return b"#!/bin/sh\necho OUTPUT-OF-SCRIPT %s\n" % mark
@@ -499,7 +521,7 @@ def _run_case(job):
         traces.append({"id": "%s#%s" % (cid, "/".join(s)), "init": {"members": ms}, "events": events,
                        "case": {"members": [mname(m) for m in ms], "ms": ms, "names": names, "loc": loc, "sel": "/" + "/".join(s),
                                 "selrec": sr, "prune": prune, "fw": sr["fw"], "dd": sr["dd"], "ro": sr["ro"],
-                                "mbox": sr["mb"],
+                                "mbox": sr["mb"], "le_seps": any(m.get("md") == "le_seps" for m in ms),
                                 "cp437_dirlink": names == "cp437" and any(
                                     m["k"] == "l" and not m["dest"]["abs"] and any(c in NAME_MAPS["cp437"] for c in m["p"][:-1])
                                     for m in ms)},
